@@ -1,6 +1,7 @@
 import SimilarVerif.Model.Common
 import SimilarVerif.Lemmas.Lcs
 import SimilarVerif.Lemmas.Myers
+import SimilarVerif.Lemmas.Patience
 import SimilarVerif.Lemmas.Walk
 /-!
 # C01 — every algorithm emits a sound, gap-free, index-exact edit script
@@ -78,5 +79,19 @@ example : InBounds (Env.ofSeqs #[1,0] #[1,2,0,1]) 0 2 0 4 := by
   have : i = 0 ∨ i = 1 := by omega
   have : j = 0 ∨ j = 1 ∨ j = 2 ∨ j = 3 := by omega
   rcases ‹i = 0 ∨ i = 1› with rfl | rfl <;> rcases ‹j = 0 ∨ j = 1 ∨ j = 2 ∨ j = 3› with rfl | rfl | rfl | rfl <;> decide
+
+end SimilarVerif.C01
+
+namespace SimilarVerif.C01
+open SimilarVerif Spec
+
+/-- **Patience, partial correctness** (for every clock), relative to `SnakeInBox` for the sequences
+and for the two unique-item lists the outer Myers run works on. -/
+theorem patience_partial (E : Env) (hboxE : MyersP.SnakeInBox E) (os oe ns ne : Nat)
+    (hboxU : ∀ uo un, unique E.oo os oe = some uo → unique E.nn ns ne = some un →
+      MyersP.SnakeInBox (E.sub uo.toArray un.toArray))
+    (w : World) (r' : Rec) (w' : World) (ho : os ≤ oe) (hn : ns ≤ ne) (hb : InBounds E os oe ns ne)
+    (h : rawTrace .patience E os oe ns ne w = .ok (r', w')) : ValidRaw E os oe ns ne r'.trace :=
+  PatienceP.patience_sound E hboxE os oe ns ne hboxU w r' w' ho hn hb (by simpa [rawTrace, diffWith] using h)
 
 end SimilarVerif.C01
